@@ -59,10 +59,15 @@ def run(tier, seed, opens):
         sent = m.to_mnemonic(ent)
         for pw in ('', 'TREZOR', 'é', 'é'):
             cases += 1
-            if m.to_seed(sent, pw) == bip39.seed(sent, pw):
+            try:
+                got = m.to_seed(sent, pw)
+            except Exception as e:
+                fail('seed', {'language': lang, 'sentence': sent, 'passphrase': pw}, 'raises %r' % e, bip39.seed(sent, pw).hex())
+                continue
+            if got == bip39.seed(sent, pw):
                 ok += 1
             else:
-                fail('seed', {'language': lang, 'sentence': sent, 'passphrase': pw}, m.to_seed(sent, pw).hex(), bip39.seed(sent, pw).hex())
+                fail('seed', {'language': lang, 'sentence': sent, 'passphrase': pw}, got.hex(), bip39.seed(sent, pw).hex())
         ws = sent.split(' ')
         idx = [wl.index(w) for w in ws]
         for _ in range(n_subst):
